@@ -150,6 +150,7 @@ type vProxyPlan struct {
 	hijackLate    bool          // the upgrade completes only after `service`
 	upgradeHeader bool          // the request merely carries an Upgrade header (no upgrade happens)
 	cookie        bool          // the request carries the rollout cookie (value "x")
+	hijackEnds    bool          // with hijack: the peer closes the upgraded connection after `service`
 }
 
 var vProxyPlans = map[int]*vProxyPlan{} // by request number
@@ -200,6 +201,16 @@ func stubReverseProxyServeHTTP(p *httputil.ReverseProxy, w http.ResponseWriter, 
 	if plan.hijack {
 		if hj, ok := w.(http.Hijacker); ok {
 			hj.Hijack()
+		}
+		if plan.hijackEnds {
+			select {
+			case <-time.After(plan.service):
+				vEmit(vEvent{kind: "forward_end", target: target, req: n, note: "peer-closed"})
+				return
+			case <-ctx.Done():
+				vEmit(vEvent{kind: "forward_end", target: target, req: n, note: "hijack-closed"})
+				return
+			}
 		}
 		vOpenEnded[n] = true
 		vOpenCtx[n] = ctx
@@ -280,7 +291,7 @@ func vInstall(r *Router, s *Service) bool { return vCallMethod(r, "installServic
 
 // wrappers that put the deploy's internal steps on the trace (a stub may call the function it replaces)
 
-//verif:stub (*github.com/basecamp/kamal-proxy/internal/server.Router).installService harness=HarnessDeployGate,HarnessRolloutDeployGate,HarnessRedeployTraffic,HarnessDrainQuiescent,HarnessDrainQuiescentDirected,HarnessPauseHold,HarnessPauseHoldDirected,HarnessNoProbesAfter,HarnessFailAtomic,HarnessCmdMix
+//verif:stub (*github.com/basecamp/kamal-proxy/internal/server.Router).installService harness=HarnessDeployGate,HarnessRolloutDeployGate,HarnessRedeployTraffic,HarnessRedeployTrafficDirected,HarnessDrainQuiescent,HarnessDrainQuiescentDirected,HarnessPauseHold,HarnessPauseHoldDirected,HarnessNoProbesAfter,HarnessFailAtomic,HarnessCmdMix
 func stubInstallServiceTraced(r *Router, s *Service) error {
 	err, _ := vCallMethod(r, "installService", s).(error)
 	vEmit(vEvent{kind: "swap", ok: err == nil})
@@ -309,14 +320,14 @@ func vTraceString() string {
 	return s
 }
 
-//verif:stub (*github.com/basecamp/kamal-proxy/internal/server.Target).Drain harness=HarnessDrainQuiescent,HarnessDrainQuiescentDirected,HarnessPauseHold,HarnessPauseHoldDirected,HarnessRedeployTraffic,HarnessCmdMix
+//verif:stub (*github.com/basecamp/kamal-proxy/internal/server.Target).Drain harness=HarnessDrainQuiescent,HarnessDrainQuiescentDirected,HarnessPauseHold,HarnessPauseHoldDirected,HarnessRedeployTraffic,HarnessRedeployTrafficDirected,HarnessCmdMix
 func stubTargetDrainTraced(t *Target, timeout time.Duration) {
 	vEmit(vEvent{kind: "drain_begin", target: t.Target()})
 	t.Drain(timeout)
 	vEmit(vEvent{kind: "drain_end", target: t.Target()})
 }
 
-//verif:stub (*github.com/basecamp/kamal-proxy/internal/server.Router).serviceForRequest harness=HarnessDrainQuiescent,HarnessDrainQuiescentDirected,HarnessPauseHold,HarnessPauseHoldDirected,HarnessRedeployTraffic,HarnessCmdMix
+//verif:stub (*github.com/basecamp/kamal-proxy/internal/server.Router).serviceForRequest harness=HarnessDrainQuiescent,HarnessDrainQuiescentDirected,HarnessPauseHold,HarnessPauseHoldDirected,HarnessRedeployTraffic,HarnessRedeployTrafficDirected,HarnessCmdMix
 func stubServiceForRequestTraced(r *Router, req *http.Request) (*Service, string) {
 	s, p := r.serviceForRequest(req)
 	vEmit(vEvent{kind: "lookup", req: vRequestNumber(req), obj: s})
@@ -413,7 +424,7 @@ func vGateEnterBefore(gi int) int {
 // after the target entered the draining state, until the held client has been answered
 var vSuspendDrain bool
 
-//verif:stub (*github.com/basecamp/kamal-proxy/internal/server.Target).pendingRequestsToCancel harness=HarnessPauseHoldDirected
+//verif:stub (*github.com/basecamp/kamal-proxy/internal/server.Target).pendingRequestsToCancel harness=HarnessPauseHoldDirected,HarnessRedeployTrafficDirected
 func stubPendingRequestsSuspended(t *Target) inflightMap {
 	if vSuspendDrain {
 		vRelease = true
